@@ -24,7 +24,9 @@ from insights.parsers import rpm_vercmp as _impl
 from insights.parsers.installed_rpms import InstalledRpm, InstalledRpms
 from insights.tests import context_wrap
 
-ALPHA = ["0", "1", "9", "00", "10", "a", "b", "Z", "ab", ".", "-", "_", "~", "^", "+", "é", "€", "~~", "^1", "01", "a1", "1a", "rc", "el7"]
+ALPHA = ["0", "1", "9", "00", "10", "a", "b", "Z", "ab", ".", "-", "_", "~", "^", "+", "é", "€", "~~", "^1", "01", "a1", "1a", "rc", "el7",
+         # every other character that is not alphanumeric separates segments too: ASCII punctuation, blanks, controls
+         ":", ",", "#", "=", "/", " ", "%", "@", "!", "{", "\t", ";"]
 
 
 # A comparison that raises is an outcome of the implementation, not a fault of the harness: it is reported as the
